@@ -239,6 +239,10 @@ class EndpointResponseHandlerGenerator:
         # (a cast() would hand the caller a str where the signature promises a datetime)
         if base_type.replace(" | None", "").strip() in {"datetime", "date", "time"}:
             return True
+        # binary data INSIDE a JSON document (List[bytes], dict[str, bytes]) is base64 text the converter decodes;
+        # a bare bytes return type is the raw response body and is handled by the caller
+        if base_type.replace(" | None", "").strip() == "bytes" and type_name.strip() != "bytes":
+            return True
 
         # Skip primitive types and built-ins (both uppercase and lowercase)
         if base_type in {
